@@ -158,8 +158,8 @@ func runAsan(bin string, seed uint64, dir string) asanResult {
 			sig := "asan-death"
 			for _, l := range strings.Split(stderr, "\n") {
 				t := strings.TrimSpace(l)
-				if strings.HasPrefix(t, "==") || strings.HasPrefix(t, "fatal error:") || strings.HasPrefix(t, "panic:") {
-					sig = "asan-death:" + core.Trunc(t, 100)
+				if strings.HasPrefix(t, "SUMMARY: AddressSanitizer") || strings.HasPrefix(t, "fatal error:") || strings.HasPrefix(t, "panic:") {
+					sig = "asan-death:" + core.Trunc(t, 160)
 					break
 				}
 			}
